@@ -93,14 +93,23 @@ Qed.
 (* the sheet names for which text -> sheet is the inverse of printing.
    plain form "Sheet!A1": no '!' in the name and not '...' *)
 Definition sheet_ok (s : str) : bool := negb (mem 33 s) && negb (starts39 s && ends39 s).
-(* quoted forms: names with a space are quoted, so only the '!' matters for them *)
-Definition sheet_ok_quoted (s : str) : bool :=
-  negb (mem 33 s) && (mem 32 s || negb (starts39 s && ends39 s)).
+(* quoted forms (after repair 4860474 a name is quoted unless it is made of letters, digits, '_'
+   and '.'): only the '!' matters, provided the model decides whether the name is quoted *)
+Definition quote_decided (s : str) : bool := existsb char_needs_quote s || negb (existsb char_undecided s).
+Definition sheet_ok_quoted (s : str) : bool := negb (mem 33 s) && quote_decided s.
+(* the text quote_sheet answers with, when it is decided *)
+Definition quote_sheet_text (s : str) : str := if existsb char_needs_quote s then quote_sheetname s else s.
 
-Lemma sheet_ok_weaken s : sheet_ok s = true -> sheet_ok_quoted s = true.
+Lemma quote_sheet_decided s : quote_decided s = true -> quote_sheet s = Ok (quote_sheet_text s).
 Proof.
-  unfold sheet_ok, sheet_ok_quoted. intros H. apply andb_true_iff in H. destruct H as [A B].
-  rewrite A, B. cbn. apply orb_true_r.
+  unfold quote_decided, quote_sheet, quote_needed, quote_sheet_text. intros H.
+  destruct (existsb char_needs_quote s); [reflexivity|]. cbn [orb] in H. apply negb_true_iff in H.
+  rewrite H. reflexivity.
+Qed.
+Lemma sheet_ok_weaken s : sheet_ok s = true -> quote_decided s = true -> sheet_ok_quoted s = true.
+Proof.
+  unfold sheet_ok, sheet_ok_quoted. intros H D. apply andb_true_iff in H. destruct H as [A B].
+  rewrite A, D. reflexivity.
 Qed.
 
 Lemma unquote_plain s : starts39 s && ends39 s = false -> unquote_sheetname s = s.
@@ -115,15 +124,17 @@ Proof.
 Qed.
 
 Lemma quote_sheet_inverse s : sheet_ok_quoted s = true ->
-  ~ In 33 (quote_sheet s) /\ unquote_sheetname (quote_sheet s) = s.
+  ~ In 33 (quote_sheet_text s) /\ unquote_sheetname (quote_sheet_text s) = s.
 Proof.
-  unfold sheet_ok_quoted, quote_sheet. intros H. apply andb_true_iff in H. destruct H as [A B].
+  unfold sheet_ok_quoted, quote_sheet_text. intros H. apply andb_true_iff in H. destruct H as [A _].
   apply negb_true_iff, mem_false in A.
-  destruct (mem 32 s) eqn:E.
+  destruct (existsb char_needs_quote s) eqn:E.
   - split; [|apply unquote_quoted]. unfold quote_sheetname. fold (dbl s).
     intros [H|H]; [discriminate|]. apply in_app_iff in H. destruct H as [H|[H|[]]]; [|discriminate].
     apply dbl_In in H. destruct H as [H|H]; [discriminate|contradiction].
-  - cbn [orb] in B. apply negb_true_iff in B. split; [exact A|apply unquote_plain; exact B].
+  - split; [exact A|]. apply unquote_plain.
+    destruct s as [|c r]; [reflexivity|]. cbn [starts39]. destruct (c =? 39) eqn:C; [|reflexivity].
+    apply Z.eqb_eq in C. subst c. cbn in E. discriminate.
 Qed.
 
 (* split_sheetname on "<prefix>!<coordinate>" *)
@@ -320,11 +331,11 @@ Proof.
   unfold sheet_ok in H. apply andb_true_iff in H. destruct H as [A B].
   apply negb_true_iff in A, B. apply PrefSheet; [apply mem_false; exact A|apply unquote_plain; exact B].
 Qed.
-Lemma prefix_quoted s : sheet_ok_quoted s = true -> prefix_of s (quote_sheet s ++ [33]).
+Lemma prefix_quoted s : sheet_ok_quoted s = true -> prefix_of s (quote_sheet_text s ++ [33]).
 Proof. intros H. destruct (quote_sheet_inverse s H) as [A B]. apply PrefSheet; assumption. Qed.
 
 Definition form_prefix (form : Z) (s : str) : str :=
-  if form =? 0 then (if nonempty s then s ++ [33] else []) else quote_sheet s ++ [33].
+  if form =? 0 then (if nonempty s then s ++ [33] else []) else quote_sheet_text s ++ [33].
 Definition form_abs (form : Z) : bool := form =? 2.
 Definition form_ok (form : Z) (s : str) : bool := if form =? 0 then sheet_ok s else sheet_ok_quoted s.
 Lemma form_prefix_ok form s : form_ok form s = true -> prefix_of s (form_prefix form s).
@@ -402,10 +413,20 @@ Proof.
   unfold address, form_prefix. cbn [Z.eqb]. destruct (nonempty (a_sheet a)); [|reflexivity].
   rewrite <- app_assoc. reflexivity.
 Qed.
-Lemma quoted_address_form a : quoted_address a = form_prefix 1 (a_sheet a) ++ coordinate a.
-Proof. unfold quoted_address, form_prefix. cbn [Z.eqb]. rewrite <- app_assoc. reflexivity. Qed.
-Lemma abs_address_form a : abs_address a = form_prefix 2 (a_sheet a) ++ abs_coordinate a.
-Proof. unfold abs_address, form_prefix. cbn [Z.eqb]. rewrite <- app_assoc. reflexivity. Qed.
+Lemma quoted_address_form a : quote_decided (a_sheet a) = true ->
+  quoted_address a = Ok (form_prefix 1 (a_sheet a) ++ coordinate a).
+Proof.
+  intros D. unfold quoted_address, form_prefix. rewrite (quote_sheet_decided _ D). cbn [Z.eqb bind].
+  rewrite <- app_assoc. reflexivity.
+Qed.
+Lemma abs_address_form a : quote_decided (a_sheet a) = true ->
+  abs_address a = Ok (form_prefix 2 (a_sheet a) ++ abs_coordinate a).
+Proof.
+  intros D. unfold abs_address, form_prefix. rewrite (quote_sheet_decided _ D). cbn [Z.eqb bind].
+  rewrite <- app_assoc. reflexivity.
+Qed.
+Lemma sheet_ok_quoted_decided s : sheet_ok_quoted s = true -> quote_decided s = true.
+Proof. unfold sheet_ok_quoted. intros H. apply andb_true_iff in H. tauto. Qed.
 
 Lemma roundtrip_form form a : on_sheet a -> form_ok form (a_sheet a) = true ->
   create (form_prefix form (a_sheet a) ++ (if form_abs form then abs_coordinate a else coordinate a)) [] None
@@ -421,18 +442,120 @@ Lemma roundtrip_plain a : on_sheet a -> sheet_ok (a_sheet a) = true ->
   create (address a) [] None = Ok (VA a).
 Proof. intros Ha Hs. rewrite address_form. apply (roundtrip_form 0 a Ha Hs). Qed.
 Lemma roundtrip_quoted a : on_sheet a -> sheet_ok_quoted (a_sheet a) = true ->
-  create (quoted_address a) [] None = Ok (VA a).
-Proof. intros Ha Hs. rewrite quoted_address_form. apply (roundtrip_form 1 a Ha Hs). Qed.
+  bind (quoted_address a) (fun t => create t [] None) = Ok (VA a).
+Proof.
+  intros Ha Hs. rewrite (quoted_address_form a (sheet_ok_quoted_decided _ Hs)). cbn [bind].
+  apply (roundtrip_form 1 a Ha Hs).
+Qed.
 Lemma roundtrip_abs a : on_sheet a -> sheet_ok_quoted (a_sheet a) = true ->
-  create (abs_address a) [] None = Ok (VA a).
-Proof. intros Ha Hs. rewrite abs_address_form. apply (roundtrip_form 2 a Ha Hs). Qed.
+  bind (abs_address a) (fun t => create t [] None) = Ok (VA a).
+Proof.
+  intros Ha Hs. rewrite (abs_address_form a (sheet_ok_quoted_decided _ Hs)). cbn [bind].
+  apply (roundtrip_form 2 a Ha Hs).
+Qed.
 
 (* non-vacuity: 'My Data'!$XFD$1048576 *)
 Example ex_roundtrip :
   let a := ACell [77; 121; 32; 68; 97; 116; 97] 16384 1048576 in
-  abs_address a = [39; 77; 121; 32; 68; 97; 116; 97; 39; 33; 36; 88; 70; 68; 36; 49; 48; 52; 56; 53; 55; 54]
-  /\ create (abs_address a) [] None = Ok (VA a).
+  abs_address a = Ok [39; 77; 121; 32; 68; 97; 116; 97; 39; 33; 36; 88; 70; 68; 36; 49; 48; 52; 56; 53; 55; 54]
+  /\ bind (abs_address a) (fun t => create t [] None) = Ok (VA a).
 Proof. vm_compute. split; reflexivity. Qed.
 (* a name with '!' is outside sheet_ok, and the model (like the code) fails on it *)
 Example ex_bang : create (address (ACell [97; 33; 98] 1 1)) [] None = Raise NotImplementedError.
 Proof. vm_compute. reflexivity. Qed.
+
+(* names that are quoted since repair 4860474 and therefore parse back: x-y, it's, a,b, Tab(1), a$b;
+   letters, digits, '_' and '.' stay bare: Sheet_1.b, Übersicht *)
+Definition quoted_rt (s : str) : Prop :=
+  sheet_ok_quoted s = true
+  /\ bind (quoted_address (ACell s 2 3)) (fun t => create t [] None) = Ok (VA (ACell s 2 3))
+  /\ bind (abs_address (ARange s 1 1 2 2)) (fun t => create t [] None) = Ok (VA (ARange s 1 1 2 2)).
+Example ex_quoted_dash : quote_sheet [120; 45; 121] = Ok [39; 120; 45; 121; 39] /\ quoted_rt [120; 45; 121].
+Proof. vm_compute. repeat split; reflexivity. Qed.
+Example ex_quoted_apostrophe :                                          (* it's -> 'it''s' *)
+  quote_sheet [105; 116; 39; 115] = Ok [39; 105; 116; 39; 39; 115; 39] /\ quoted_rt [105; 116; 39; 115].
+Proof. vm_compute. repeat split; reflexivity. Qed.
+Example ex_quoted_comma : quote_sheet [97; 44; 98] = Ok [39; 97; 44; 98; 39] /\ quoted_rt [97; 44; 98].
+Proof. vm_compute. repeat split; reflexivity. Qed.
+Example ex_quoted_paren :                                               (* Tab(1) *)
+  quote_sheet [84; 97; 98; 40; 49; 41] = Ok [39; 84; 97; 98; 40; 49; 41; 39] /\ quoted_rt [84; 97; 98; 40; 49; 41].
+Proof. vm_compute. repeat split; reflexivity. Qed.
+Example ex_quoted_dollar : quote_sheet [97; 36; 98] = Ok [39; 97; 36; 98; 39] /\ quoted_rt [97; 36; 98].
+Proof. vm_compute. repeat split; reflexivity. Qed.
+Example ex_bare_names :
+  quote_sheet [83; 104; 101; 101; 116; 95; 49; 46; 98] = Ok [83; 104; 101; 101; 116; 95; 49; 46; 98]
+  /\ quote_sheet [220; 98; 101; 114] = Ok [220; 98; 101; 114] /\ quoted_rt [220; 98; 101; 114]
+  /\ quote_sheet [25968; 25454] = Ok [25968; 25454] /\ quoted_rt [25968; 25454].
+Proof. vm_compute. repeat split; reflexivity. Qed.
+(* a character the model does not classify (Greek pi) leaves quote_sheet undecided, unless another
+   character already forces the quotes *)
+Example ex_undecided : quote_sheet [960; 95; 49] = Raise Unmodelled /\ sheet_ok_quoted [960; 95; 49] = false
+  /\ quote_sheet [960; 32; 49] = Ok [39; 960; 32; 49; 39] /\ quoted_rt [960; 32; 49].
+Proof. vm_compute. repeat split; reflexivity. Qed.
+
+(* ------------------------------- the address text inside a formula: '$' stripped *)
+(* excelformula.RangeNode._emit removes EVERY '$' of a range token before it calls
+   AddressRange.create (addr_str = value.replace('$', '')): the absolute markers, but also a '$'
+   of the sheet name.  So the absolute form read that way gives the address back exactly for the
+   names without '$' (Refuted/C11_dollar_sheet.v: sheet a$b comes back as ab). *)
+Definition strip_dollar (t : str) : str := py_replace [36] [] t.
+Definition sheet_ok_formula (s : str) : bool := sheet_ok_quoted s && negb (mem 36 s).
+
+Lemma strip_filter t : strip_dollar t = filter (fun c => negb (c =? 36)) t.
+Proof.
+  unfold strip_dollar, py_replace. induction t as [|c r IH]; [reflexivity|].
+  cbn [replace_skip str_prefix length Nat.sub app filter]. rewrite (Z.eqb_sym 36 c).
+  destruct (c =? 36); cbn [andb negb]; rewrite IH; reflexivity.
+Qed.
+Lemma filter_absent l : ~ In 36 l -> filter (fun c => negb (c =? 36)) l = l.
+Proof.
+  induction l as [|c r IH]; intros H; [reflexivity|]. cbn [filter].
+  replace (c =? 36) with false by (symmetry; apply Z.eqb_neq; intros ->; apply H; left; reflexivity).
+  cbn [negb]. rewrite IH; [reflexivity|]. intros Hin. apply H. right. exact Hin.
+Qed.
+Lemma uppers_no_dollar L : uppers L -> ~ In 36 L.
+Proof. intros H Hin. unfold uppers in H. rewrite Forall_forall in H. specialize (H 36 Hin). lia. Qed.
+Lemma digits_no_dollar D : digitsP D -> ~ In 36 D.
+Proof. intros H Hin. unfold digitsP in H. rewrite Forall_forall in H. specialize (H 36 Hin). lia. Qed.
+
+Lemma strip_abs_coord c r : 1 <= c <= 18278 -> 1 <= r ->
+  filter (fun x => negb (x =? 36)) (abs_coord_text c r) = coord_text c r.
+Proof.
+  intros Hc Hr. rewrite (cell_text_shape true c r Hc Hr), (cell_text_shape false c r Hc Hr).
+  destruct (col_text c Hc) as (HU & _). destruct (row_text r ltac:(lia)) as (HD & _).
+  unfold ctext. cbn [filter Z.eqb Pos.eqb negb]. rewrite filter_app. cbn [filter Z.eqb Pos.eqb negb].
+  rewrite (filter_absent _ (uppers_no_dollar _ HU)), (filter_absent _ (digits_no_dollar _ HD)). reflexivity.
+Qed.
+Lemma strip_prefix s : mem 36 s = false -> strip_dollar (form_prefix 2 s) = form_prefix 1 s.
+Proof.
+  intros H. apply mem_false in H. rewrite strip_filter. unfold form_prefix. cbn [Z.eqb Pos.eqb].
+  apply filter_absent. intros Hin. apply in_app_iff in Hin. destruct Hin as [Hin|[Hin|[]]]; [|discriminate].
+  unfold quote_sheet_text in Hin. destruct (existsb char_needs_quote s); [|contradiction].
+  unfold quote_sheetname in Hin. fold (dbl s) in Hin. destruct Hin as [Hin|Hin]; [discriminate|].
+  apply in_app_iff in Hin. destruct Hin as [Hin|[Hin|[]]]; [|discriminate].
+  apply dbl_In in Hin. destruct Hin as [Hin|Hin]; [discriminate|contradiction].
+Qed.
+
+Lemma roundtrip_abs_stripped a : on_sheet a -> sheet_ok_formula (a_sheet a) = true ->
+  bind (abs_address a) (fun t => create (strip_dollar t) [] None) = Ok (VA a).
+Proof.
+  intros Ha Hs. unfold sheet_ok_formula in Hs. apply andb_true_iff in Hs. destruct Hs as [Hq Hd].
+  apply negb_true_iff in Hd.
+  rewrite (abs_address_form a (sheet_ok_quoted_decided _ Hq)). cbn [bind].
+  assert (E : strip_dollar (form_prefix 2 (a_sheet a) ++ abs_coordinate a)
+              = form_prefix 1 (a_sheet a) ++ coordinate a).
+  { rewrite strip_filter, filter_app, <- strip_filter, (strip_prefix _ Hd). f_equal.
+    destruct a as [s c r|s c1 r1 c2 r2]; cbn [on_sheet abs_coordinate coordinate] in *.
+    - apply strip_abs_coord; unfold MAX_COL in *; lia.
+    - destruct Ha as (A & B & C & D & _). rewrite filter_app. cbn [filter Z.eqb Pos.eqb negb].
+      rewrite !strip_abs_coord by (unfold MAX_COL in *; lia). reflexivity. }
+  rewrite E. apply (roundtrip_form 1 a Ha Hq).
+Qed.
+Example ex_stripped :
+  let a := ARange [84; 97; 98; 40; 49; 41] 1 1 2 2 in                       (* 'Tab(1)'!$A$1:$B$2 *)
+  sheet_ok_formula (a_sheet a) = true /\ on_sheet a
+  /\ bind (abs_address a) (fun t => create (strip_dollar t) [] None) = Ok (VA a).
+Proof.
+  cbn zeta. split; [vm_compute; reflexivity|]. split; [|vm_compute; reflexivity].
+  cbn. unfold MAX_COL, MAX_ROW. repeat split; try lia. discriminate.
+Qed.
